@@ -1,6 +1,7 @@
 package main
 
 import (
+	"go/constant"
 	"fmt"
 	"go/token"
 	"go/types"
@@ -297,7 +298,13 @@ func c12check(p *Prog, r *Report) {
 						for _, in := range b.Instrs {
 							if mu, ok := in.(*ssa.MapUpdate); ok {
 								if _, ok := mu.Map.(*ssa.MakeMap); ok && depOnCall(mu.Key, canonIdent) {
-									upd = true
+									// the entry marks the signer as seen (not `= false`), whenever the signer is counted
+									if c, isC := mu.Value.(*ssa.Const); isC && c.Value != nil && c.Value.Kind() == constant.Bool && !constant.BoolVal(c.Value) {
+										continue
+									}
+									if dominates(mu, inc) || dominates(inc, mu) {
+										upd = true
+									}
 								}
 							}
 						}
